@@ -26,6 +26,7 @@ func init() {
 			{"C10/exit", "no panic/os.Exit/log.Fatal on request-reachable paths except justified entries", c10Exit},
 			{"C10/reflect", "reflect partial methods are dominated by a Kind test of the same value", c10Reflect},
 			{"C10/contain", "gRPC methods and go targets reach third-party parsers of client bytes only behind a directly recovering defer", c10Contain},
+			{"C10/relay-conn", "the relay goroutine is started only with a connection that was dialled successfully", c10RelayConn},
 			{"C10/hijack-nil", "the packet loop starts only with both transports set", c10HijackNil},
 		},
 	})
@@ -748,4 +749,43 @@ func c10HijackNil(c *Ctx) {
 		}
 	}
 	c.Floor(rule, 4, "two handlers x two transports")
+}
+
+// c10RelayConn: forward dereferences its connection in a goroutine nothing recovers; it must be
+// started only over the success edge of the dial whose result it is given.
+func c10RelayConn(c *Ctx) {
+	rule := "C10/relay-conn"
+	n := 0
+	for _, fn := range c.allFirstPartyFuncs() {
+		if !c.Reachable()[fn] {
+			continue
+		}
+		var dials []*ssa.Call
+		for _, ci := range callsIn(fn) {
+			if strings.HasPrefix(calleeName(ci), "net.Dial") {
+				if call, ok := ci.(*ssa.Call); ok {
+					dials = append(dials, call)
+				}
+			}
+		}
+		eachInstr(fn, func(in ssa.Instruction) {
+			g, ok := in.(*ssa.Go)
+			if !ok {
+				return
+			}
+			if f := g.Call.StaticCallee(); f == nil || fnName(f) != protoPkg+".forward" {
+				return
+			}
+			n++
+			good := len(dials) > 0
+			why := "no dial in the function that starts the relay"
+			for _, d := range dials {
+				if ok, w := mustPass(fn, g, GErrNil(resultOf(d, 1))); !ok {
+					good, why = false, w
+				}
+			}
+			c.Check(good, rule, "go forward in "+shortFn(fn), g.Pos(), "started only after the dial succeeded", "the relay goroutine is started "+why+" of the dial error: with a failed dial it dereferences a nil connection in a goroutine of its own, which ends the whole gateway process")
+		})
+	}
+	c.Floor(rule, 1, "go forward")
 }
